@@ -213,13 +213,15 @@ class SymCtx:
         if k in self.reproduced or self.attempts.get(k, 0) >= 2:
             return False
         self.attempts[k] = self.attempts.get(k, 0) + 1
+        from .ops import MARGIN_T, MARGINS
+
         neg = z3.Not(_zb(c.t))
-        nr = _zb(c.nr)
+        nrs = [z3.substitute(_zb(c.nr), (MARGIN_T, z3.RealVal(repr(mg)))) for mg in MARGINS]
         soft = list(self.nice_terms)
         cand = {"label": label, "key": k, "info": info, "choices": dict(self.path_choices)}
         tried = []
-        gens = [lambda: self.ex.more_models(neg, [nr], soft), lambda: self.ex.more_models(neg, [], soft),
-                lambda: [model]]
+        gens = [(lambda nr=nr: self.ex.more_models(neg, [nr], soft)) for nr in nrs] + [lambda: self.ex.more_models(neg, [], soft),
+                                                                                    lambda: [model]]
         for g in gens:
             for m in g():
                 md = self._model_dict(m)
